@@ -7,6 +7,7 @@ of the states (all in thorough) is produced again by REAL process death - os.for
 that event - and must be byte-identical to the snapshot (else the crash model is wrong: the run
 becomes INCONCLUSIVE); (3) the recovery oracle of DESIGN 3/C16 is run on every crash state.
 """
+import json
 import math
 import os
 import random
@@ -51,7 +52,7 @@ CLASSES = ["keep2_default", "keepall_noepoch", "keepall_default", "keep2_noepoch
            "keepall_mixed", "keep2_default", "keepall_custom", "keepall_default", "keep2_default"]
 FLOORS = {
     "quick": {
-        "events": {"traced_update": 90, "recovery": 700, "real_process_death": 200,
+        "events": {"traced_update": 90, "recovery": 700, "real_process_death": 200, "fresh_interpreter_restart": 4,
                    "assert:recovery-prefix": 2000, "assert:recovery-last-params": 500,
                    "assert:recovery-best-params": 800, "assert:recovery-final-csv": 600,
                    "assert:recovery-final-load": 1500, "assert:recovery-decision": 1200,
@@ -69,7 +70,7 @@ FLOORS = {
         "distinct": 18,
     },
     "thorough": {
-        "events": {"traced_update": 1200, "recovery": 12000, "real_process_death": 8000},
+        "events": {"traced_update": 1200, "recovery": 12000, "real_process_death": 8000, "fresh_interpreter_restart": 80},
         "classes": {"keep2_default": 80, "keepall_default": 50, "keep2_custom": 25, "keepall_custom": 25,
                     "keepall_noepoch": 25, "keep2_noepoch": 25, "keepall_mixed": 25, "two_faults": 80,
                     "two_faults_leftover_directed": 60,
@@ -657,6 +658,31 @@ def _case(case, mon, T, scn, tracer, base, problems):
             want = {nm for e in range(1, k + 1) for nm in scn.names(e)}
             mon.check(want <= files, "crash-free-files", update=k, observed=sorted(files), expected=sorted(want))
             mon.stat("keep_all_extra_files", len(files - want))
+    # ---- restart in a FRESH interpreter after a completed update (a real restart keeps nothing in memory: no
+    # module global, no class attribute): the directory at the end is the uninterrupted run's
+    if case["keep2"] and n >= 2 and scn.refused_at is None and case["death_seed"] % 3 != 1:
+        import subprocess
+        import sys
+
+        k = 1 + case["death_seed"] % (n - 1)
+        froot = os.path.join(base, "fresh")
+        TR.write_tree(froot, recs[k]["tree"])
+        cpath = os.path.join(base, "case.json")
+        with open(cpath, "w") as f:
+            json.dump(case, f)
+        env = dict(os.environ, PYTHONPATH=os.pathsep.join([core.HERE] + sys.path))
+        try:
+            pr = subprocess.run([sys.executable, "-m", "vmon.props._c16_fresh", cpath, froot, str(k + 1), str(n)],
+                                env=env, capture_output=True, text=True, timeout=300)
+            mon.ev("fresh_interpreter_restart")
+            mon.check(pr.returncode == 0, "fresh-process-restart", what="continuation raised",
+                      stderr=pr.stderr[-1500:], resumed_after=k)
+            got = TR.read_tree(froot)
+            mon.check(_same_on_disk(got, recs[n]["tree"], named), "fresh-process-restart", resumed_after=k,
+                      observed=sorted(r for r in got if not r.endswith("/")),
+                      expected=sorted(r for r in recs[n]["tree"] if not r.endswith("/")))
+        except subprocess.TimeoutExpired:
+            mon.stat("fresh_interpreter_restart_timeout")
     # ---- describe the crash states
     inner = [s for s in states if s.kind == "in"]
     for s in states:
